@@ -161,6 +161,12 @@ def gen_ex(rng, uni, ev, d, uses, nvar, top=False, cmp_ok=False, arith2=False, f
         z = rng.choice([0, 1, 2, 3])
         return str(z), ["int", z]
     op = rng.choice(["+", "-", "*", "+"]) if not cmp_ok else rng.choice(["+", "-", "*", ">", "==", "<="])
+    if arith2 and op in "+-*" and rng.random() < 0.12:
+        # a conditional: the test a boolean (comparison, and / or), each arm in its own branch of if / else
+        c, sc = gen_boolex(rng, uni, ev, rng.choice([0, 0, 1]), uses, nvar)
+        a, sa = gen_ex(rng, uni, ev, d - 1, uses, nvar, top=(rng.random() < 0.6), arith2=True)
+        b, sb = gen_ex(rng, uni, ev, d - 1, uses, nvar, arith2=True)
+        return f"({a} if {c} else {b})", ["eif", sc, sa, sb]
     if arith2 and op in "+-*":
         j = rng.random()
         if j < 0.10:
